@@ -24,7 +24,7 @@ BOUNDARY_F = [0, 1, -1, 256, -256, 128, -128, 255, 257, 4174, -3200, 2**31 - 1, 
 class Incarnation:
     """ground truth for one object (one incarnation of an id on a connection)"""
     __slots__ = ('conn', 'id', 'gen', 'iface', 'created_by', 't_create', 'destroyed_by',
-                 't_destroy', 'alive', 'zombie', 'has_pending_delete', 'creator_is_event')
+                 't_destroy', 'alive', 'zombie', 'has_pending_delete', 'creator_is_event', 'orphan')
 
     def __init__(self, conn, id_, gen, iface, created_by, t_create, creator_is_event=False):
         self.conn = conn
@@ -39,6 +39,7 @@ class Incarnation:
         self.zombie = False               # endpoint destroyed it; no further mentions are generated
         self.has_pending_delete = False
         self.creator_is_event = creator_is_event
+        self.orphan = False
 
     def server_range(self):
         return self.id >= SERVER_ID_START
@@ -274,6 +275,11 @@ class World:
         for a in msg.args:
             if a.kind in 'iufh':
                 args.append(GArg(a.kind, self._gen_value(rng, a.kind), name=a.name))
+            elif a.kind == 's' and msg.name in ('set_app_id', 'set_title') and rng.random() < 0.6:
+                # values that matter to the tool's connection naming: letters that are also connection names,
+                # dotted app ids (also ending in a dot), the empty string
+                args.append(GArg('s', rng.choice(['a', 'b', 'B', 'c', 'org.gnome.gedit', 'org.foo.', 'A', '', 'all', 'b ', 'x.b']),
+                                 name=a.name))
             elif a.kind == 's':
                 if a.allow_null and rng.random() < 0.3:
                     args.append(GArg('s', None, name=a.name, allow_null=True))
@@ -503,6 +509,22 @@ class World:
         o = objs[r1 % len(objs)]
         return self._destroy_obj(c, o, r2, rng)
 
+    def _act_orphan(self, c, r1, r2, rng):
+        """NOT well-formed (used only by properties whose quantifier is all histories): a message on an object id that
+        was never created on this connection; the tool can not resolve it"""
+        iface = ['wl_surface', 'wl_buffer', 'xdg_toplevel', 'vsim_0'][r2 % 4]
+        model = self.proto.get(iface)
+        ms = [m for m in (model.usable(bool(r2 & 4)) if model else []) if not any(a.kind in 'on' for a in m.args)]
+        if not ms:
+            return None
+        m = ms[r1 % len(ms)]
+        inc = Incarnation(c.index, 9000 + r1 % 40, 0, iface, None, self.now)
+        inc.orphan = True
+        args = self._build_args(c, m, rng, m.is_event, [], [])
+        if args is None:
+            return None
+        return self._emit(c, m.is_event, inc, m.name, m.opcode, args, m.signature())
+
     def _act_churn(self, c, r1, r2, rng):
         """one step of a sync / done / delete_id loop: the realistic way one id gets many incarnations"""
         if c.pending_delete:
@@ -513,8 +535,23 @@ class World:
         return self._act_sync(c, r1, r2, rng)
 
 
+    APP_ID_VALUES = ['b', 'B', 'c', 'a', 'org.gnome.gedit', 'org.foo.', '', 'all', 'x.b', 'C']
+
+    def _act_app_id(self, c, r1, r2, rng):
+        """set_app_id / set_title on an object of a synthetic interface (if one is live); the value is chosen by r1 so
+        that scenarios can aim at app ids that collide with connection names"""
+        objs = [o for o in c.live() if o.iface in self.synth]
+        if not objs:
+            return self._act_bind_synth(c, r1, r2, rng)
+        o = objs[(r1 // 16) % len(objs)]
+        ms = [m for m in self.proto[o.iface].requests if m.name in ('set_app_id', 'set_title')]
+        m = ms[r2 % len(ms)]
+        args = [GArg('s', self.APP_ID_VALUES[r1 % len(self.APP_ID_VALUES)], name=m.args[0].name)]
+        return self._emit(c, False, o, m.name, m.opcode, args, m.signature())
+
+
 ACT_KINDS = ['get_registry', 'sync', 'done', 'delete_id', 'global', 'bind', 'request', 'event',
-             'request_new', 'event_new', 'mention', 'destroy', 'churn', 'bind_synth', 'destroy_server']
+             'request_new', 'event_new', 'mention', 'destroy', 'churn', 'bind_synth', 'destroy_server', 'app_id', 'orphan']
 
 CHATTER_TEMPLATES = [
     '', '   ', '\t', 'hello world', 'libEGL warning: DRI2: failed to authenticate',
